@@ -38,7 +38,33 @@ def _shrink_to(value: float, limit: float) -> float:
 
 
 @st.composite
+def _deficit_stress(draw: Any, max_groups: int) -> list[dict[str, Any]]:
+    """Many single-inverter groups that all have exclusion bounds; several of them have almost no SoC headroom.
+
+    This is the regime in which proportional shares fall below the minimum power of several groups at once
+    and the surplus of the others has to be redistributed.
+    """
+    out = []
+    n = draw(st.integers(3, max(3, max_groups)))
+    for _ in range(n):
+        incl = float(draw(st.sampled_from([500, 1000, 2000, 5000])))
+        e_bat = float(draw(st.sampled_from([0, 50, 100, 200, 250])))
+        e_inv = float(draw(st.sampled_from([0, 0, 50, 100, 200])))
+        e_bat, e_inv = min(e_bat, incl), min(e_inv, incl)
+        lo, hi = 10.0, 90.0
+        soc = draw(st.sampled_from([10.0, 10.5, 11.0, 50.0, 50.0, 89.0, 89.5, 90.0]))
+        out.append({
+            "bats": [{"cap": float(draw(st.sampled_from([1000, 1000, 2000]))), "soc": soc, "lo": lo, "hi": hi,
+                      "iu": incl, "il": -incl, "eu": e_bat, "el": -e_bat + 0.0}],
+            "invs": [{"iu": incl, "il": -incl, "eu": e_inv, "el": -e_inv + 0.0}],
+        })
+    return out
+
+
+@st.composite
 def groups(draw: Any, max_groups: int = 4, grid_only: bool = False, multi: bool = True) -> list[dict[str, Any]]:
+    if draw(st.integers(0, 4)) == 0:
+        return draw(_deficit_stress(max_groups))
     out = []
     for _ in range(draw(st.integers(1, max_groups))):
         nb = draw(st.sampled_from([1, 1, 1, 2, 3])) if multi else 1
@@ -47,8 +73,12 @@ def groups(draw: Any, max_groups: int = 4, grid_only: bool = False, multi: bool 
         for _ in range(nb):
             lo = draw(st.sampled_from([0.0, 10.0, 20.0]))
             hi = draw(st.sampled_from([lo, 80.0, 90.0, 100.0]))
-            kind = draw(st.sampled_from(["lo", "hi", "in", "in", "in", "below", "above"]))
-            if kind == "lo":
+            kind = draw(st.sampled_from(["lo", "hi", "in", "in", "in", "below", "above", "near_lo", "near_hi"]))
+            if kind == "near_lo":
+                soc = min(hi, lo + draw(st.sampled_from([0.01, 0.5, 1.0])))
+            elif kind == "near_hi":
+                soc = max(lo, hi - draw(st.sampled_from([0.01, 0.5, 1.0])))
+            elif kind == "lo":
                 soc = lo
             elif kind == "hi":
                 soc = hi
@@ -197,11 +227,13 @@ def request_power(case_groups: list[dict[str, Any]], req: dict[str, Any]) -> flo
     incl = adv["incl_up"] if up else adv["incl_lo"]
     excl = adv["excl_up"] if up else adv["excl_lo"]
     kind, frac = req["kind"], req["frac"]
-    if kind == "excl" and excl > 0:
+    if kind == "near_excl" and excl > 0:
+        mag = excl * (1.0 + 0.1 * frac) if incl <= 0 or excl * (1.0 + 0.1 * frac) <= max(incl, excl) else excl
+    elif kind == "excl" and excl > 0:
         mag = excl
     elif kind == "incl" and incl >= excl and incl > 0:
         mag = incl
-    elif kind in ("between", "excl", "incl") and incl > excl:
+    elif kind in ("between", "excl", "incl", "near_excl") and incl > excl:
         mag = excl + frac * (incl - excl)
         if mag <= 0:
             mag = incl
@@ -213,7 +245,7 @@ def request_power(case_groups: list[dict[str, Any]], req: dict[str, Any]) -> flo
 def request_strategy() -> st.SearchStrategy[dict[str, Any]]:
     return st.fixed_dictionaries({
         "sign": st.sampled_from([1, -1]),
-        "kind": st.sampled_from(["excl", "incl", "between", "between", "beyond"]),
+        "kind": st.sampled_from(["excl", "incl", "between", "between", "beyond", "near_excl", "near_excl"]),
         "frac": st.one_of(st.sampled_from([0.001, 0.5, 0.999]), st.floats(0.0, 1.0)),
     })
 
